@@ -36,6 +36,9 @@ type S struct {
 	Choices []int
 	// Trace is the sequence of "task@point" resumed.
 	Trace []string
+	// OnStep, if set, is called before every scheduling decision with the
+	// number of decisions taken so far.
+	OnStep func(step int)
 }
 
 // Yield parks the calling goroutine if it belongs to a task; goroutines that
@@ -68,7 +71,12 @@ func (s *S) TaskID() int {
 // Run executes the task bodies under the schedule inside a synctest bubble.
 // It returns an error string if the bubble ended abnormally (deadlock).
 func Run(t *testing.T, schedule []int, bodies []func(s *S)) (s *S, abnormal string) {
-	s = &S{byGoid: map[uint64]*task{}, schedule: schedule}
+	return RunOpts(t, schedule, bodies, nil)
+}
+
+// RunOpts is Run with a callback invoked before every scheduling decision.
+func RunOpts(t *testing.T, schedule []int, bodies []func(s *S), onStep func(step int)) (s *S, abnormal string) {
+	s = &S{byGoid: map[uint64]*task{}, schedule: schedule, OnStep: onStep}
 	done := make(chan any, 1)
 	go func() {
 		defer func() { done <- recover() }()
@@ -103,6 +111,12 @@ func Run(t *testing.T, schedule []int, bodies []func(s *S)) (s *S, abnormal stri
 				if len(runnable) == 0 {
 					s.mu.Unlock()
 					break
+				}
+				if s.OnStep != nil {
+					step := s.pos
+					s.mu.Unlock()
+					s.OnStep(step)
+					s.mu.Lock()
 				}
 				choice := 0
 				if s.pos < len(s.schedule) {
